@@ -141,7 +141,12 @@ func C09Scenarios(tier string) []*h.Scenario {
 		}
 		return append(ev, evBurst(g5, 2, 1000), evClearPending(g5), evRestart())
 	}
-	return []*h.Scenario{s, &s2, &s3, &s4, &s5}
+	// the node lister fails in a scan after a node was cordoned: no remembered list may stand in
+	s6 := *s
+	s6.Name = "c09.lister-faults"
+	s6.Slots = 5
+	s6.FaultOps = map[string]bool{sim.OpListNodes: true, sim.OpListPods: true}
+	return []*h.Scenario{s, &s2, &s3, &s4, &s5, &s6}
 }
 
 func init() {
